@@ -407,6 +407,23 @@ theorem next_fresh_gen (hu : KeysUniq view) (hsrc : Gen view r src.rootNode) (li
 
 end machine
 
+/-- the same from any data source whose root match is genuine (a search from a `Match`) -/
+theorem getMatch_gen_src (cx : Ctx α) (hu : KeysUniq cx.view) (steps : Array (Step α)) (r : α) (src : Src α)
+    (hsrc : Gen cx.view r src.rootNode) (mm : Bool) (m : MNode α)
+    (h : getMatch cx steps src mm = .ok (some m)) : Gen cx.view r m := by
+  simp only [getMatch, nextOut] at h
+  rcases hn : next cx.view steps src cx.limit freshIter with ⟨st', evs, sig⟩
+  rw [hn] at h
+  cases sig with
+  | result n =>
+    simp only [Except.ok.injEq, Option.some.injEq] at h
+    subst h
+    exact next_fresh_gen cx.view r steps src hu hsrc cx.limit n (by rw [hn])
+  | stop => simp only at h; split at h <;> simp at h
+  | none => simp at h
+  | raised e => simp at h
+  | bug msg => simp at h
+
 /-- **the match `get_match` returns is genuine**: its names lead from the document to its value -/
 theorem getMatch_gen (cx : Ctx α) (hu : KeysUniq cx.view) (steps : Array (Step α)) (d : α) (mm : Bool) (m : MNode α)
     (h : getMatch cx steps (.doc d) mm = .ok (some m)) : Gen cx.view d m := by
